@@ -381,12 +381,22 @@ def run_stateful(spec: dict) -> dict:
             node = cst.parse_module(code + "\n").body[0]
             return tc.Statement(node=node, bound_variable=var, bound_type=typ)
 
-        stats = {"stateful_tests": 0, "stateful_checked": 0, "stateful_kept": 0, "stateful_raise_on_rerun": 0}
+        import pynguin.assertion.mutation_analysis.mutators as mu
+        import pynguin.assertion.mutation_analysis.operators as mo
+        from pynguin.assertion.mutation_analysis.controller import MutationController
+        from pynguin.assertion.mutation_analysis.transformer import ParentNodeTransformer
+
+        stats = {"stateful_tests": 0, "stateful_checked": 0, "stateful_kept": 0, "stateful_raise_on_rerun": 0,
+                 "stateful_wiring_shared": 0, "stateful_wiring_distinct": 0, "stateful_generator_plain": 0,
+                 "stateful_generator_mutation": 0}
         sp = SubjectProperties()
         with install_import_hook(module_name, sp):
             with sp.instrumentation_tracer:
                 importlib.import_module(module_name)
             executor = TestCaseExecutor(sp)
+            filtering = TestCaseExecutor(sp)          # a second, distinct in-process executor for the filtering pass
+            module_ast = ParentNodeTransformer.create_ast(STATEFUL_SUT.lstrip("\n"))
+            operators = [*mo.standard_operators, *mo.experimental_operators]
             uid = 0
             for _round in range(spec["rounds"]):
                 tests = []
@@ -417,7 +427,25 @@ def run_stateful(spec: dict) -> dict:
                 mod = sys.modules[module_name]
                 mod._budget["left"] = 1
                 mod.Once.used = False
-                suite.accept(ag.AssertionGenerator(executor, rng.choice([1, 1, 2])))
+                # both wirings: one shared executor / a dedicated filtering executor; plain and mutation-analysis generator.
+                # (A fresh-subprocess filtering executor is not used here: its module state starts empty, so the
+                # statement does not raise there and the subject would be flaky by construction.)
+                distinct = _round % 2 == 1
+                mutation = _round % 3 == 2
+                stats["stateful_wiring_distinct" if distinct else "stateful_wiring_shared"] += 1
+                stats["stateful_generator_mutation" if mutation else "stateful_generator_plain"] += 1
+                wiring = "distinct-filtering-executor" if distinct else "shared-executor"
+                if mutation:
+                    mutator = mu.FirstOrderMutator(operators, maximum_mutants=rng.choice([4, 8]), sampling_seed=rng.randrange(99), reorder=True)
+                    controller = MutationController(mutator, module_ast, mod)
+                    config.configuration.test_case_output.assertion_minimization = rng.random() < 0.7
+                    generator = ag.MutationAnalysisAssertionGenerator(executor, controller, filtering_executor=filtering if distinct else None)
+                    wiring += "+mutation-analysis"
+                elif distinct:
+                    generator = ag.AssertionGenerator(executor, rng.choice([1, 1, 2]), filtering_executor=filtering)
+                else:
+                    generator = ag.AssertionGenerator(executor, rng.choice([1, 1, 2]))
+                suite.accept(generator)
                 for t in tests:
                     checker = make_holds_checker()
                     with executor.temporarily_add_remote_observer(checker):
@@ -430,9 +458,9 @@ def run_stateful(spec: dict) -> dict:
                         code = [cst.Module(body=[s.node]).code.strip() for s in t.statements()]
                         out["fails"].append({
                             "signature": "holding:kept-assertion-fails-on-original",
-                            "what": f"stateful subject: {len(checker.violations)} kept assertion(s) do not hold when the test is "
+                            "what": f"stateful subject ({wiring}): {len(checker.violations)} kept assertion(s) do not hold when the test is "
                                     f"re-executed on the unmutated module: {checker.violations[:2]}",
-                            "replay": {"spec": spec, "test": code, "violated": checker.violations[:5]}})
+                            "replay": {"spec": spec, "wiring": wiring, "test": code, "violated": checker.violations[:5]}})
         out["stats"] = stats
     except BaseException as e:  # noqa: BLE001
         out["error"] = f"{type(e).__name__}: {e}\n" + traceback.format_exc()[-2500:]
